@@ -103,6 +103,24 @@ Theorem C11_runs_after_alloc : forall l l' ro rn a m, agree_out l l' a m true ->
 Proof. exact runs_after_alloc. Qed.
 Print Assumptions C11_runs_after_alloc.
 
+(* _fsm_blk_allocate_aligned_lw, first attempt and full scan: what is handed out starts at the page-aligned start of a run
+   OF THE INDEX that holds the request from there on (so, with C10_page_aligned_alloc, index and bitmap stay in step), and
+   the allocator gives up only when no run of the index holds the request *)
+Theorem C11_aligned_choice : forall s L mx, Inv s -> WF s -> 0 < L ->
+  let ab := shr (aunit s) (bpow s) in
+  let '(rc, s', off, olen) := blk_allocate_aligned s L mx in
+  (rc = IWFS_ERROR_NO_FREE_SPACE ->
+     forall klen koff, In (klen, koff) (tree s) -> al_fits koff klen (IW_ROUNDUP koff ab) L mx = false) /\
+  (rc = 0 -> exists aklen akoff, In (aklen, akoff) (tree s) /\
+     al_fits akoff aklen (IW_ROUNDUP akoff ab) L mx = true /\ off = IW_ROUNDUP akoff ab).
+Proof. exact blk_allocate_aligned_choice. Qed.
+Print Assumptions C11_aligned_choice.
+(* ... in a reachable state where the first attempt is abandoned and the scan rejects a longer run at a lower offset after
+   the one it keeps (corpus/C11/aligned-fullscan-stale-start.txt is the same script on the implementation) *)
+Example C11_aligned_scan_state : Good scan_witness_state /\ tree scan_witness_state = [(64, 194); (70, 512); (100, 321)] /\
+  (let '(rc, _, off, olen) := blk_allocate_aligned scan_witness_state 64 U64MAX in (rc, off, olen)) = (0, 512, 64).
+Proof. exact scan_witness. Qed.
+
 (* satisfiable hypotheses / the witness history on the fixed code ends with one merged extent *)
 Example C11_good_state_exists : Good (reopen (fresh v_fixed false) false false).
 Proof. exact fresh_reopened_good. Qed.
